@@ -640,7 +640,7 @@ func (g *G) AlterTable(d int) X {
 		}
 		op.Set("Type", 1).Set("ColumnDef", cd)
 	case 1: // ADD CONSTRAINT
-		cn := g.pick([]string{"pk_1", "uq_x", "fk_t_u", "ck_pos"})
+		cn := g.pick([]string{"pk_1", "uq_x", "fk_t_u", "ck_pos", "STATUS_chk", "ORDERS_PK", "Item_Order_FK", "CUSTOMER_EMAIL_UQ", "constraint_1", "TRIANON"})
 		tc := dump.N("TableConstraint", "Name", cn)
 		toks = cat(toks, kw("ADD CONSTRAINT"), one(sym(cn)))
 		switch g.R.Intn(4) {
